@@ -1,5 +1,6 @@
 """C08 - the dependency graph is exactly the declared one, and acyclic."""
 from ..core import Prop
+from .c13 import Multi
 from ..coqlit import cbool, clist, cnat, cpair, cstr
 from .. import pipeline as pl
 from ..suites_chain import ChainBuild, chain_oracle, cobs, CONSTRUCTION_ERRORS
@@ -108,9 +109,22 @@ class Graphs(ChainBuild):
         return None
 
 
+class SharedAcrossChains(Multi):
+    """task objects shared between the chains of a MultiChain that mount their pipeline under different namespaces:
+    in every member chain the inputs of every task are the tasks of that chain's own mounting (values and
+    object identities against the standalone chains and the history model)"""
+    name = 'shared_objects_wiring'
+
+    def corpus(self):
+        return super().corpus()[-1:]
+
+    def gen(self, rng, tier):
+        return []
+
+
 class C08(Prop):
     pid = 'C08'
-    suites = [Graphs()]
+    suites = [Graphs(), SharedAcrossChains()]
     trusted_base = ['networkx (DiGraph, ancestors, descendants, has_path, DAG test) is tied to the model\'s own proved '
                     'closure functions by the correspondence',
                     'import strings are resolved by the harness (import_by_string is not modelled); input patterns are '
